@@ -120,7 +120,7 @@ def run_case(case, chooser=None, window=None):
                     bad.accounting_record_number = 1
                     conn.add_out_msg(bad)
             nw.world.low_kind = "work_write_queue"      # the writers get the CPU last: the DPR is queued behind the bad message before they look
-        if window is not None:
+        if window is not None and extra != "dpa_window":
             nw.world.points_on = True
             chooser.window = True
         if extra == "self_closed":
@@ -207,7 +207,15 @@ def run_case(case, chooser=None, window=None):
                 if reaction == "dpa_now" or (reaction == "dpa_later" and sec >= 1):
                     if extra == "dwa_first" and states[i] == "waiting_dwa":
                         sc.apply(("m", idx[i], "dwa"))      # the peer first answers the watchdog request that was outstanding, then the DPR
-                    if sc.apply(("m", idx[i], "dpa")):
+                    if extra == "dpa_window" and chooser is not None:
+                        # schedule exploration of the DPA's arrival: the reader thread handling it against the I/O thread
+                        nw.world.points_on = True
+                        chooser.window = True
+                    ok_ = sc.apply(("m", idx[i], "dpa"))
+                    if extra == "dpa_window" and chooser is not None:
+                        chooser.window = False
+                        nw.world.points_on = False
+                    if ok_:
                         dpa_time[i] = nw.world.now
                         if i in queued:
                             s.fs.send_blocked = False       # the peer reads again
@@ -252,7 +260,7 @@ def run_case(case, chooser=None, window=None):
                     vs.append(("shutdown:connection-not-closed-after-its-DPA", f"{desc}: connection {i}"))
                 elif closes[0][0] < dpa_time[i]:
                     vs.append(("shutdown:connection-closed-before-its-DPA-arrived", f"{desc}: connection {i} closed at {closes[0][0] - t0}, DPA at {dpa_time[i] - t0}"))
-                elif closes[0][0] > dpa_time[i] + 2 and (closes[0][0] < t0 + wt or (extra or "").startswith("flood") or extra in ("together", "together_iolast", "dwa_first")):
+                elif closes[0][0] > dpa_time[i] + 2 and (closes[0][0] < t0 + wt or (extra or "").startswith("flood") or extra in ("together", "together_iolast", "dwa_first", "dpa_window")):
                     vs.append(("shutdown:connection-not-closed-promptly-after-its-DPA", f"{desc}: connection {i} DPA at {dpa_time[i] - t0}, closed at {closes[0][0] - t0}"))
             if i in ready_at_stop and not force and reaction == "never" and closes and closes[0][0] < t0 + wt:
                 vs.append(("shutdown:connection-closed-before-DPA-or-timeout", f"{desc}: connection {i} closed at {closes[0][0] - t0}, timeout {wt}"))
@@ -379,6 +387,9 @@ def sched_execute(case, prefix):
     lines = {sk.code_of(nn.Node, "stop"): None}
     if len(case) > 6 and case[6] == "due_now":
         lines.update({sk.code_of(nn.Node, "_reconnect_peers"): None, sk.code_of(nn.Node, "_connect_to_peer"): None})
+    if len(case) > 6 and case[6] == "dpa_window":
+        import diameter.node.peer as pp
+        lines = {sk.code_of(nn.Node, "receive_dpa"): None, sk.code_of(pp.PeerConnection, "close"): None}
     sk.set_line_points(lines)
     ch = scheddfs.Chooser(prefix)
     vs = run_case(case, chooser=ch, window=True)
@@ -407,6 +418,9 @@ def run(tier):
         sched_cases = sched_cases[:2]
     sched_cases.append((("ready",), "dpa_now", False, 2, None, True, "due_now"))
     sched_cases.append(((), "never", True, 2, None, True, "due_now"))
+    # the DPA's arrival: reader thread inside receive_dpa (line granularity) against the I/O thread
+    sched_cases.append((("ready",), "dpa_now", False, 5, None, False, "dpa_window"))
+    sched_cases.append((("ready", "waiting_dwa"), "dpa_later", False, 5, None, False, "dpa_window"))
     # the cases whose reconnect is due at stop() get line points in the dial path; with them the free orders of the threads that
     # stop() wakes multiply, so non-default choices at blocking points are bounded too (2) in those cases
     bounds = [(bound, 2) if len(c) > 6 and c[6] == "due_now" and tier != "thorough" else bound for c in sched_cases]
